@@ -75,5 +75,9 @@ OrderKept == \A i, j \in 1..N(cur) : i < j => cur.pts[i] < cur.pts[j]
 LabelOrderKept == [][ (hist' # hist /\ hist'[Len(hist')].op = "without_labels") =>
                         Names(cur') = SelectSeq(Names(cur), LAMBDA n : n \notin hist'[Len(hist')].arg) ]_vars
 FailuresPure == [][ (hist' # hist /\ hist'[Len(hist')].err # "") => cur' = cur ]_vars
+\* complete-graph mode (VIEW NoHist, no depth bound): the current labelled graph ranges over a finite set; every reachable
+\* graph is visited, the properties hold for histories of any length, one history per transition is emitted
+NoHist == cur
+EmitTrans == CSVWrite("%1$s", <<ToJson(hist')>>, IOEnv.OUT_FILE)
 Emit == (Len(hist) = D) => CSVWrite("%1$s", <<ToJson(hist)>>, IOEnv.OUT_FILE)
 =======================================================================
